@@ -59,7 +59,7 @@ class Monitor:
 class Explorer:
     def __init__(self, world: World, workload, monitors, budget=None, *, max_states=200000, time_cap=None,
                  signal_spec=None, trust_negative=False, sweep_at_quiescence=False, setup=None, stop_on_violation=True,
-                 audit_bisim=False, actions_filter=None, die_points=("mark", "ack")):
+                 audit_bisim=False, actions_filter=None, die_points=("poll", "mark", "ack")):
         self.w = world
         self.wl = workload
         self.monitors = monitors
@@ -149,10 +149,18 @@ class Explorer:
                     acts.append((f"d{dp[0]}:" + l, m["id"]))
         if locked:
             acts.append(("expire", None))
-        if delayed and not ready:
+        # Timing constraint of the ready/delayed/locked abstraction (DESIGN.md 2.2): a message lock lasts 60 s,
+        # the engine's "still waiting, give up" horizon is max_stage_wait_retries x 15 s = 1 h.  The harness
+        # shortens that horizon to wait_retries attempts, so while a dead worker's lock is held, time must not be
+        # advanced onto the attempt that gives up: the lock lapses first.
+        wr = self.w.wait_retries
+        gives_up = bool(locked) and any((m["payload"].get("retry_count") or 0) >= wr for m in delayed)
+        if delayed and not ready and not gives_up:
             acts.append(("advance", None))
         if b["early"] > 0:
             for m in sorted(delayed, key=lambda m: (msg_label(v, m), m["id"])):
+                if locked and (m["payload"].get("retry_count") or 0) >= wr:
+                    continue
                 l = lab(m)
                 if l is not None:
                     acts.append(("early:" + l, m["id"]))
@@ -224,6 +232,8 @@ class Explorer:
                 b["early"] -= 1
             tr.mlabel = name.split(":", 1)[1]
             tr.msg, tr.exc = w.deliver(arg, die_at=die)
+            if die == "poll":
+                tr.msg = None  # claimed, never handled: to every monitor this is not a delivery
         elif kind == "expire":
             w.expire()
         elif kind == "advance":
